@@ -47,7 +47,8 @@ def handleDec (d : Dialect) (s : GS1Spec.Status) (w : List Item) (cuts order : L
 
 /-- responder spec → (delay, datagrams); `x` = closed port -/
 def responder? (s : String) : Option (Option (Nat × List Bytes)) :=
-  if s = "x" then some none
+  -- "x": a closed port; "w": a candidate beyond 65535 (game port + offset wraps as uint16): nothing answers there either
+  if s = "x" ∨ s = "w" then some none
   else
     match s.splitOn "/" with
     | [dl, dg] => do
